@@ -27,6 +27,7 @@ def handleLine (line : String) : String :=
     | "loop" => LoopDrv.handle rest
     | "run" => RunDrv.handle rest
     | "bufseq" => BufDrv.handle rest
+    | "growth" => ExecDrv.handleGrowth rest
     | "exec" => ExecDrv.handleExec rest
     | "step" => ExecDrv.handleStep rest
     | "scope" => (match rest with
